@@ -24,5 +24,11 @@ CHECKS = {
   "text": "For every channel count N in the stated bound and ALL positive gains, power, noise and symbol energy: non-negativity, sum = total power, P_i = max(0, mu - noise/(Es g_i)) for the returned mu, and permutation equivariance are discharged on every path of the real code. This is bounded in N (quick 1..4, thorough 1..6) and unbounded in the values. Optimality is reduced to the KKT structure by lemma L-KKT (assumed). A native check covers N<=60, 12 decades, ties, and perturbation optimality.",
   "note": "Ideal reals; N bounded; lemma L-KKT (KKT structure => capacity optimal, by concavity) assumed, not machine-checked.",
  },
+ "C14": {
+  "category": "proof",
+  "technique": "contract-based deductive verification: ghost sample position, symbolic request size through an affine-sequence contract of np.arange, inductive class invariant, representation-independent request histories observed through get_samples(); Lean/Mathlib lemma for the magnitude bound; bounded binary64 long-run check",
+  "text": "The real generator methods are symbolically executed with symbolic Doppler, sampling interval, phases, head start and request sizes: exactly n samples of the configured shape at times (pos+i)*Ts, new time pos+n, skip advances by m (inductive step, any history length), every sample returned after every request sequence of length <=3 equals the Jakes sum-of-sinusoids at its position, phases change only on a shape change, |h|<=sqrt(L) by lemma L-UNIT (z3 for L<=2, Lean 4+Mathlib for all L in the thorough tier), Fd=0 static. Binary64 accumulation over positions up to 1e10 is a bounded native check with a stated phase tolerance.",
+  "note": "Ideal reals; cos/sin uninterpreted; np.arange contract; history length bounded at 3 for the representation-independent form (the inductive step covers any length for the current representation); L-UNIT assumed for L>2 in the quick tier.",
+ },
 }
 NOT_APPLICABLE = {}
